@@ -108,6 +108,7 @@ pub fn large_graph(c: &LargeCase) -> (Graph, Vec<usize>, &'static str) {
         root_named: false,
         nproj: 1,
         targets: vec![],
+        homonyms: false,
     };
     match c.shape {
         0 => {
@@ -199,7 +200,7 @@ pub fn large_graph(c: &LargeCase) -> (Graph, Vec<usize>, &'static str) {
 /// 200 KB, i.e. several pipe buffers).
 fn cmd_heavy_graph() -> Graph {
     let b = |deps: Vec<usize>| GT { proj: 0, kind: Kind::Build, deps, outdeps: vec![] };
-    Graph { root_named: false, nproj: 1, targets: vec![b(vec![]), b(vec![0]), b(vec![1])] }
+    Graph { root_named: false, nproj: 1, targets: vec![b(vec![]), b(vec![0]), b(vec![1])], homonyms: false }
 }
 
 /// Shape 7: the same short chain, every target tracking (as input and as output) a directory that
@@ -212,6 +213,11 @@ fn plant_special_entries(dir: &Path, bits: u8) -> Vec<&'static str> {
         let d = dir.join(sub);
         let _ = std::fs::create_dir_all(&d);
         let _ = std::fs::write(d.join("regular.txt"), b"regular\n");
+        if bits & 64 != 0 {
+            let _ = std::fs::write(d.join("future.txt"), b"dated in the future\n");
+            set_mtime(&d.join("future.txt"), 2_200_000_000, 0);
+            planted.push("future-dated-file");
+        }
         if bits & 1 != 0 {
             let c = std::ffi::CString::new(d.join("pipe").as_os_str().as_bytes()).unwrap();
             unsafe { libc::mkfifo(c.as_ptr(), 0o644) };
@@ -247,6 +253,7 @@ fn plant_special_entries(dir: &Path, bits: u8) -> Vec<&'static str> {
             planted.push("deep-nest");
         }
     }
+    planted.sort();
     planted.dedup();
     planted
 }
@@ -268,7 +275,7 @@ pub fn eval_large(c: &LargeCase) -> CaseResult {
     let dir = write_graph_project(&sb, &g, &|_| String::new());
     let mut planted: Vec<&'static str> = vec![];
     if special {
-        let bits = if c.extra & 63 == 0 { 63 } else { c.extra & 63 };
+        let bits = if c.extra & 63 == 0 { 127 } else { (c.extra & 63) | ((c.size as u8 & 1) << 6) };
         planted = plant_special_entries(&dir, bits);
         let path = dir.join("zinoma.yml");
         let mut doc: Value = serde_json::from_str(&std::fs::read_to_string(&path).unwrap()).unwrap();
@@ -369,6 +376,22 @@ pub fn eval_large(c: &LargeCase) -> CaseResult {
                 r.violation = Some(msg);
                 return r;
             }
+        }
+    }
+    if special {
+        // a second invocation exercises the up-to-date check against the records just made
+        sb.clear_trace();
+        let again = spawn_zinoma(&sb, &dir, &args, &[]).wait_ext(budget, true, true);
+        if again.hung || (!again.timed_out && !again.success()) {
+            let msg = format!(
+                "special-entries ({:?}): the second invocation {} (the first one exited 0)",
+                planted,
+                if again.hung { "stays idle and unfinished".to_string() } else { format!("exited with {:?}", again.status) }
+            );
+            r.signature = Some(format!("bb-large:{}:special-entries-second-run", if again.hung { "deadlock" } else { "exit" }));
+            r.replay = replay(&msg);
+            r.violation = Some(msg);
+            return r;
         }
     }
     r
